@@ -379,7 +379,7 @@ def _expr_run(res: CheckResult, layouts: bool) -> None:
         res.states += r.distinct
         res.transitions += r.states
         st = E.check_cases(res, EXPR_CLAUSES, cases, viol, py, ic)
-        if st["violated"] < 100:
+        if st["violated"] < 100 and not res.violations:
             raise MachineryError("ICExpr family {} is vacuous".format(name))
         res.traces += st["cases"]
         res.evaluations += st["lines_compared"]
